@@ -182,7 +182,8 @@ def run_case(case):
         ct = D.crypt(pt, key)
         rks = D.round_keys(key)
         for r in case['rounds']:
-            got = scared.des.get_master_key(_ro(np.array(rks[r], dtype='uint8')), r, _ro(np.array(pt, dtype='uint8')), _ro(np.array(ct, dtype='uint8')))
+            dts = [['uint8', 'uint8', 'uint8'], ['int64', 'int64', 'int64'], ['uint8', 'uint16', 'int32'], ['int16', 'uint8', 'uint64']][(r + case['sub']) % 4]
+            got = scared.des.get_master_key(_ro(np.array(rks[r], dtype=dts[0])), r, _ro(np.array(pt, dtype=dts[1])), _ro(np.array(ct, dtype=dts[2])))
             t.count('des_master_keys')
             ok = got is not None and [int(v) & 0xFE for v in np.asarray(got).tolist()] == [v & 0xFE for v in key]
             t.check(ok, 'des_get_master_key', lambda: dict(round=r, key=key, got=None if got is None else np.asarray(got).tolist()))
